@@ -13,9 +13,11 @@ EXPLANATION = ("capnp.Equal is modelled step by step (coq/Value/EqualM.v: bytewi
                "walked trees.")
 TRUSTED = ["model coq/Value/EqualM.v hand-written from pointer.go (Equal); clients are abstract identities (IsSame = equality "
            "of ids, 0 = nil client; unresolved promises, released clients are outside the model)",
-           "the documented equality coq/Value/ValueEq.v is a reading of Equal's doc comment; two decisions where it is silent "
-           "(bit lists have no struct view; non-struct lists of different element kinds are unequal even when empty) follow the "
-           "encoding specification and are stated in the file header",
+           "the documented equality coq/Value/ValueEq.v is a reading of Equal's doc comment, with decisions beyond it stated in "
+           "the file header: bit lists have no struct view (comment silent; independent decision, exposed F01); non-struct lists "
+           "of different element kinds are unequal even when empty (the comment's literal 'same length and elements equal' is "
+           "OVERRIDDEN, following the code and the encoding specification), as are the pointer-list upgrade and the table-bound "
+           "condition of capability identity: on these three points the specification mirrors the implementation",
            "den (coq/Value/Den.v) is the proof's notion of 'the value a pointer denotes'; the harness evaluates value_eq on the "
            "executable decoder vdec, proved sound for den (C17_vdec_den); boundary-size ('big') cases bypass the list-based "
            "model (quadratic) and compare Equal with the answer known by construction"]
@@ -30,7 +32,11 @@ LEVEL_TEXT = ("Proof: for all value trees the documented equality is reflexive, 
               "reflexive, symmetric and independent of the layout (C17_equal_refl/sym/layout_independent). The model is tied "
               "to pointer.go by a differential run (capnp.Equal vs extracted equal_m vs value_eq of the walked trees) on value "
               "pairs in random layouts. Defects F01 and O3 found by that run and fixed; pre-fix models kept with witnesses.")
-LEVEL_NOTE = ("Trusted: Coq kernel, extraction, harness, hand-written model. the specification side of the run is evaluated on vdec (sound for den).")
+LEVEL_NOTE = ("Partial correctness: every theorem is conditional on Equal answering (b, nil); that it answers when the limits "
+              "cover both values is not proved here (fuel non-exhaustion: EqualSafe.equal_m_nofuel, exported under C02), and no "
+              "lemma says den is inhabited for every pointer of a valid message. value_eq is not transitive (witness). Three rules "
+              "of value_eq follow the code rather than the doc comment (see TRUSTED). Trusted: Coq kernel, extraction, harness, "
+              "hand-written model. The specification side of the run is evaluated on vdec (sound for den).")
 TECHNIQUE = "Coq proof over an executable model + extracted-model/implementation differential run"
 DESIGN_REF = "DESIGN.md section 6, C17"
 
